@@ -262,36 +262,36 @@ package services
 //@   inline
 //@   loop 1
 //@     invariant req.Subscription != nil && req != nil && sub != nil && (req.UpdateMask == nil || idx < len(req.UpdateMask.Paths))
-//@     invariant untouched_name: ub.subscriptions.name$op(subUpdate) == 0
-//@     invariant untouched_created_at: ub.subscriptions.created_at$op(subUpdate) == 0
-//@     invariant untouched_live: ub.subscriptions.live$op(subUpdate) == 0
-//@     invariant untouched_deleted_at: ub.subscriptions.deleted_at$op(subUpdate) == 0
-//@     invariant untouched_delivery_delay: ub.subscriptions.delivery_delay$op(subUpdate) == 0
-//@     invariant untouched_topic_id: ub.subscriptions.topic_id$op(subUpdate) == 0
-//@     invariant local_labels: ub.subscriptions.labels$op(subUpdate) != 0 ==> (exists k int :: req.UpdateMask != nil && 0 <= k && k <= idx && req.UpdateMask.Paths[k] == "labels")
-//@     invariant local_ttl: ub.subscriptions.ttl$op(subUpdate) != 0 ==> (exists k int :: req.UpdateMask != nil && 0 <= k && k <= idx && req.UpdateMask.Paths[k] == "expiration_policy")
-//@     invariant local_expires_at: ub.subscriptions.expires_at$op(subUpdate) != 0 ==> (exists k int :: req.UpdateMask != nil && 0 <= k && k <= idx && req.UpdateMask.Paths[k] == "expiration_policy")
-//@     invariant local_message_ttl: ub.subscriptions.message_ttl$op(subUpdate) != 0 ==> (exists k int :: req.UpdateMask != nil && 0 <= k && k <= idx && req.UpdateMask.Paths[k] == "message_retention_duration")
-//@     invariant local_ordered_delivery: ub.subscriptions.ordered_delivery$op(subUpdate) != 0 ==> (exists k int :: req.UpdateMask != nil && 0 <= k && k <= idx && req.UpdateMask.Paths[k] == "enable_message_ordering")
-//@     invariant local_min_backoff: ub.subscriptions.min_backoff$op(subUpdate) != 0 ==> (exists k int :: req.UpdateMask != nil && 0 <= k && k <= idx && req.UpdateMask.Paths[k] == "retry_policy")
-//@     invariant local_max_backoff: ub.subscriptions.max_backoff$op(subUpdate) != 0 ==> (exists k int :: req.UpdateMask != nil && 0 <= k && k <= idx && req.UpdateMask.Paths[k] == "retry_policy")
-//@     invariant local_push_endpoint: ub.subscriptions.push_endpoint$op(subUpdate) != 0 ==> (exists k int :: req.UpdateMask != nil && 0 <= k && k <= idx && req.UpdateMask.Paths[k] == "push_config")
-//@     invariant local_filter: ub.subscriptions.filter$op(subUpdate) != 0 ==> (exists k int :: req.UpdateMask != nil && 0 <= k && k <= idx && req.UpdateMask.Paths[k] == "filter")
-//@     invariant local_dead_letter_topic_id: ub.subscriptions.dead_letter_topic_id$op(subUpdate) != 0 ==> (exists k int :: req.UpdateMask != nil && 0 <= k && k <= idx && req.UpdateMask.Paths[k] == "dead_letter_policy")
-//@     invariant local_max_delivery_attempts: ub.subscriptions.max_delivery_attempts$op(subUpdate) != 0 ==> (exists k int :: req.UpdateMask != nil && 0 <= k && k <= idx && req.UpdateMask.Paths[k] == "dead_letter_policy")
-//@     invariant applied_filter: (exists k int :: req.UpdateMask != nil && 0 <= k && k <= idx && req.UpdateMask.Paths[k] == "filter") ==> ite(req.Subscription.Filter == "", ub.subscriptions.filter$op(subUpdate) == 2, ub.subscriptions.filter$op(subUpdate) == 1 && ub.subscriptions.filter(subUpdate) == req.Subscription.Filter)
-//@     invariant applied_ordering: (exists k int :: req.UpdateMask != nil && 0 <= k && k <= idx && req.UpdateMask.Paths[k] == "enable_message_ordering") ==> ub.subscriptions.ordered_delivery$op(subUpdate) == 1 && ub.subscriptions.ordered_delivery(subUpdate) == req.Subscription.EnableMessageOrdering
-//@     invariant applied_labels: (exists k int :: req.UpdateMask != nil && 0 <= k && k <= idx && req.UpdateMask.Paths[k] == "labels") ==> ub.subscriptions.labels$op(subUpdate) == 1 && ub.subscriptions.labels(subUpdate) == req.Subscription.Labels
-//@     invariant applied_push: (exists k int :: req.UpdateMask != nil && 0 <= k && k <= idx && req.UpdateMask.Paths[k] == "push_config") ==> ite(req.Subscription.PushConfig == nil || req.Subscription.PushConfig.PushEndpoint == "", ub.subscriptions.push_endpoint$op(subUpdate) == 2, ub.subscriptions.push_endpoint$op(subUpdate) == 1 && ub.subscriptions.push_endpoint(subUpdate) == req.Subscription.PushConfig.PushEndpoint)
-//@     invariant applied_retry_min: (exists k int :: req.UpdateMask != nil && 0 <= k && k <= idx && req.UpdateMask.Paths[k] == "retry_policy") ==> ite(req.Subscription.RetryPolicy == nil || req.Subscription.RetryPolicy.MinimumBackoff == nil, ub.subscriptions.min_backoff$op(subUpdate) == 2, ub.subscriptions.min_backoff$op(subUpdate) == 1)
-//@     invariant applied_retry_max: (exists k int :: req.UpdateMask != nil && 0 <= k && k <= idx && req.UpdateMask.Paths[k] == "retry_policy") ==> ite(req.Subscription.RetryPolicy == nil || req.Subscription.RetryPolicy.MaximumBackoff == nil, ub.subscriptions.max_backoff$op(subUpdate) == 2, ub.subscriptions.max_backoff$op(subUpdate) == 1)
+//@     invariant untouched_name: [C17] ub.subscriptions.name$op(subUpdate) == 0
+//@     invariant untouched_created_at: [C17] ub.subscriptions.created_at$op(subUpdate) == 0
+//@     invariant untouched_live: [C17] ub.subscriptions.live$op(subUpdate) == 0
+//@     invariant untouched_deleted_at: [C17] ub.subscriptions.deleted_at$op(subUpdate) == 0
+//@     invariant untouched_delivery_delay: [C17] ub.subscriptions.delivery_delay$op(subUpdate) == 0
+//@     invariant untouched_topic_id: [C17] ub.subscriptions.topic_id$op(subUpdate) == 0
+//@     invariant local_labels: [C17] ub.subscriptions.labels$op(subUpdate) != 0 ==> (exists k int :: req.UpdateMask != nil && 0 <= k && k <= idx && req.UpdateMask.Paths[k] == "labels")
+//@     invariant local_ttl: [C17] ub.subscriptions.ttl$op(subUpdate) != 0 ==> (exists k int :: req.UpdateMask != nil && 0 <= k && k <= idx && req.UpdateMask.Paths[k] == "expiration_policy")
+//@     invariant local_expires_at: [C17] ub.subscriptions.expires_at$op(subUpdate) != 0 ==> (exists k int :: req.UpdateMask != nil && 0 <= k && k <= idx && req.UpdateMask.Paths[k] == "expiration_policy")
+//@     invariant local_message_ttl: [C17] ub.subscriptions.message_ttl$op(subUpdate) != 0 ==> (exists k int :: req.UpdateMask != nil && 0 <= k && k <= idx && req.UpdateMask.Paths[k] == "message_retention_duration")
+//@     invariant local_ordered_delivery: [C17] ub.subscriptions.ordered_delivery$op(subUpdate) != 0 ==> (exists k int :: req.UpdateMask != nil && 0 <= k && k <= idx && req.UpdateMask.Paths[k] == "enable_message_ordering")
+//@     invariant local_min_backoff: [C17] ub.subscriptions.min_backoff$op(subUpdate) != 0 ==> (exists k int :: req.UpdateMask != nil && 0 <= k && k <= idx && req.UpdateMask.Paths[k] == "retry_policy")
+//@     invariant local_max_backoff: [C17] ub.subscriptions.max_backoff$op(subUpdate) != 0 ==> (exists k int :: req.UpdateMask != nil && 0 <= k && k <= idx && req.UpdateMask.Paths[k] == "retry_policy")
+//@     invariant local_push_endpoint: [C17] ub.subscriptions.push_endpoint$op(subUpdate) != 0 ==> (exists k int :: req.UpdateMask != nil && 0 <= k && k <= idx && req.UpdateMask.Paths[k] == "push_config")
+//@     invariant local_filter: [C17] ub.subscriptions.filter$op(subUpdate) != 0 ==> (exists k int :: req.UpdateMask != nil && 0 <= k && k <= idx && req.UpdateMask.Paths[k] == "filter")
+//@     invariant local_dead_letter_topic_id: [C17] ub.subscriptions.dead_letter_topic_id$op(subUpdate) != 0 ==> (exists k int :: req.UpdateMask != nil && 0 <= k && k <= idx && req.UpdateMask.Paths[k] == "dead_letter_policy")
+//@     invariant local_max_delivery_attempts: [C17] ub.subscriptions.max_delivery_attempts$op(subUpdate) != 0 ==> (exists k int :: req.UpdateMask != nil && 0 <= k && k <= idx && req.UpdateMask.Paths[k] == "dead_letter_policy")
+//@     invariant applied_filter: [C17] (exists k int :: req.UpdateMask != nil && 0 <= k && k <= idx && req.UpdateMask.Paths[k] == "filter") ==> ite(req.Subscription.Filter == "", ub.subscriptions.filter$op(subUpdate) == 2, ub.subscriptions.filter$op(subUpdate) == 1 && ub.subscriptions.filter(subUpdate) == req.Subscription.Filter)
+//@     invariant applied_ordering: [C17] (exists k int :: req.UpdateMask != nil && 0 <= k && k <= idx && req.UpdateMask.Paths[k] == "enable_message_ordering") ==> ub.subscriptions.ordered_delivery$op(subUpdate) == 1 && ub.subscriptions.ordered_delivery(subUpdate) == req.Subscription.EnableMessageOrdering
+//@     invariant applied_labels: [C17] (exists k int :: req.UpdateMask != nil && 0 <= k && k <= idx && req.UpdateMask.Paths[k] == "labels") ==> ub.subscriptions.labels$op(subUpdate) == 1 && ub.subscriptions.labels(subUpdate) == req.Subscription.Labels
+//@     invariant applied_push: [C17] (exists k int :: req.UpdateMask != nil && 0 <= k && k <= idx && req.UpdateMask.Paths[k] == "push_config") ==> ite(req.Subscription.PushConfig == nil || req.Subscription.PushConfig.PushEndpoint == "", ub.subscriptions.push_endpoint$op(subUpdate) == 2, ub.subscriptions.push_endpoint$op(subUpdate) == 1 && ub.subscriptions.push_endpoint(subUpdate) == req.Subscription.PushConfig.PushEndpoint)
+//@     invariant applied_retry_min: [C17] (exists k int :: req.UpdateMask != nil && 0 <= k && k <= idx && req.UpdateMask.Paths[k] == "retry_policy") ==> ite(req.Subscription.RetryPolicy == nil || req.Subscription.RetryPolicy.MinimumBackoff == nil, ub.subscriptions.min_backoff$op(subUpdate) == 2, ub.subscriptions.min_backoff$op(subUpdate) == 1)
+//@     invariant applied_retry_max: [C17] (exists k int :: req.UpdateMask != nil && 0 <= k && k <= idx && req.UpdateMask.Paths[k] == "retry_policy") ==> ite(req.Subscription.RetryPolicy == nil || req.Subscription.RetryPolicy.MaximumBackoff == nil, ub.subscriptions.max_backoff$op(subUpdate) == 2, ub.subscriptions.max_backoff$op(subUpdate) == 1)
 //@ func (*publisherServer).UpdateTopic$1(tx) (err)
 //@   inline
 //@   loop 1
 //@     invariant req.Topic != nil && req != nil && (req.UpdateMask == nil || idx < len(req.UpdateMask.Paths))
-//@     invariant untouched: ub.topics.name$op(topicUpdate) == 0 && ub.topics.created_at$op(topicUpdate) == 0 && ub.topics.live$op(topicUpdate) == 0 && ub.topics.deleted_at$op(topicUpdate) == 0
-//@     invariant local_labels: ub.topics.labels$op(topicUpdate) != 0 ==> (exists k int :: req.UpdateMask != nil && 0 <= k && k <= idx && req.UpdateMask.Paths[k] == "labels")
-//@     invariant applied_labels: (exists k int :: req.UpdateMask != nil && 0 <= k && k <= idx && req.UpdateMask.Paths[k] == "labels") ==> ub.topics.labels$op(topicUpdate) == 1 && ub.topics.labels(topicUpdate) == req.Topic.Labels
+//@     invariant untouched: [C17] ub.topics.name$op(topicUpdate) == 0 && ub.topics.created_at$op(topicUpdate) == 0 && ub.topics.live$op(topicUpdate) == 0 && ub.topics.deleted_at$op(topicUpdate) == 0
+//@     invariant local_labels: [C17] ub.topics.labels$op(topicUpdate) != 0 ==> (exists k int :: req.UpdateMask != nil && 0 <= k && k <= idx && req.UpdateMask.Paths[k] == "labels")
+//@     invariant applied_labels: [C17] (exists k int :: req.UpdateMask != nil && 0 <= k && k <= idx && req.UpdateMask.Paths[k] == "labels") ==> ub.topics.labels$op(topicUpdate) == 1 && ub.topics.labels(topicUpdate) == req.Topic.Labels
 
 // C12: a page of ListTopics: every entry is a live resource of exactly the requested project, after the
 // page token; at most the effective page size; a next-page token (the id of the last entry) iff the page is full;
@@ -320,7 +320,7 @@ package services
 //@ func (*publisherServer).ListTopics$1(tx) (err)
 //@   inline
 //@   loop 1
-//@     invariant ordered: forall j int, k int :: {topics[j], topics[k]} 0 <= j && j < k && k < len(topics) ==> topics[j].ID < topics[k].ID
+//@     invariant ordered: [C12] forall j int, k int :: {topics[j], topics[k]} 0 <= j && j < k && k < len(topics) ==> topics[j].ID < topics[k].ID
 //@     invariant rowfacts: forall k int :: {topics[k]} 0 <= k && k < len(topics) ==> topics[k] != nil && topics.exists(topics[k].ID) && topics.name(topics[k].ID) == topics[k].Name
 //@     invariant idx < len(topics)
 //@     invariant forall k int :: {grpcTopics[k]} {topics[k]} 0 <= k && k <= idx ==> grpcTopics[k] != nil && !allocated(grpcTopics[k]) && grpcTopics[k].Name == topics[k].Name
@@ -353,7 +353,7 @@ package services
 //@ func (*subscriberServer).ListSubscriptions$1(tx) (err)
 //@   inline
 //@   loop 1
-//@     invariant ordered: forall j int, k int :: {subs[j], subs[k]} 0 <= j && j < k && k < len(subs) ==> subs[j].ID < subs[k].ID
+//@     invariant ordered: [C12] forall j int, k int :: {subs[j], subs[k]} 0 <= j && j < k && k < len(subs) ==> subs[j].ID < subs[k].ID
 //@     invariant rowfacts: forall k int :: {subs[k]} 0 <= k && k < len(subs) ==> subs[k] != nil && subscriptions.exists(subs[k].ID) && subscriptions.name(subs[k].ID) == subs[k].Name
 //@     invariant idx < len(subs)
 //@     invariant forall k int :: {grpcSubscriptions[k]} {subs[k]} 0 <= k && k <= idx ==> grpcSubscriptions[k] != nil && !allocated(grpcSubscriptions[k]) && grpcSubscriptions[k].Name == subs[k].Name
@@ -386,7 +386,7 @@ package services
 //@ func (*subscriberServer).ListSnapshots$1(tx) (err)
 //@   inline
 //@   loop 1
-//@     invariant ordered: forall j int, k int :: {snaps[j], snaps[k]} 0 <= j && j < k && k < len(snaps) ==> snaps[j].ID < snaps[k].ID
+//@     invariant ordered: [C12] forall j int, k int :: {snaps[j], snaps[k]} 0 <= j && j < k && k < len(snaps) ==> snaps[j].ID < snaps[k].ID
 //@     invariant rowfacts: forall k int :: {snaps[k]} 0 <= k && k < len(snaps) ==> snaps[k] != nil && snapshots.exists(snaps[k].ID) && snapshots.name(snaps[k].ID) == snaps[k].Name
 //@     invariant idx < len(snaps)
 //@     invariant forall k int :: {grpcSnapshots[k]} {snaps[k]} 0 <= k && k <= idx ==> grpcSnapshots[k] != nil && !allocated(grpcSnapshots[k]) && grpcSnapshots[k].Name == snaps[k].Name
@@ -417,7 +417,7 @@ package services
 //@ func (*publisherServer).ListTopicSubscriptions$1(tx) (err)
 //@   inline
 //@   loop 1
-//@     invariant ordered: forall j int, k int :: {subs[j], subs[k]} 0 <= j && j < k && k < len(subs) ==> subs[j].ID < subs[k].ID
+//@     invariant ordered: [C12] forall j int, k int :: {subs[j], subs[k]} 0 <= j && j < k && k < len(subs) ==> subs[j].ID < subs[k].ID
 //@     invariant rowfacts: forall k int :: {subs[k]} 0 <= k && k < len(subs) ==> subs[k] != nil && subscriptions.exists(subs[k].ID) && subscriptions.name(subs[k].ID) == subs[k].Name
 //@     invariant idx < len(subs)
 //@     invariant forall k int :: {subNames[k]} {subs[k]} 0 <= k && k <= idx ==> subNames[k] == subs[k].Name
